@@ -94,6 +94,7 @@ type Result struct {
 	OpsDone    int
 	States     map[string]bool // abstract states visited
 	Cursors    []int           // input cursor before each op (parser world)
+	SchedHash  uint64          // multi world: hash of the executed schedule (task, site, ticks)
 	NonTrivial bool
 }
 
